@@ -26,8 +26,12 @@ ASSUMPTIONS = ["ID order of the result is not part of the property (sets are "
 
 # IDs of unequal length: '<U' arrays sized after one operand must not clip
 # the other's
-UNI_O = ["O%d" % i for i in range(6)] + ["O10", "O_longer observation/7"]
-UNI_S = ["S%d" % i for i in range(6)] + ["S10", "S_longer sample.id-7"]
+# ... and two names that occur on both axes (an observation and a sample may
+# share a name; they are different things)
+UNI_O = ["O%d" % i for i in range(6)] + ["O10", "O_longer observation/7",
+                                         "7", "X"]
+UNI_S = ["S%d" % i for i in range(6)] + ["S10", "S_longer sample.id-7",
+                                         "X", "7"]
 MODES = st.sampled_from(["union", "intersection"])
 MDF = ["default", "dict_union", "prefer_other", "tag", "none"]
 
